@@ -89,7 +89,12 @@ func (m *PositionMapper) LineUTF16Len(line int) int {
 	if line < 0 || line >= len(m.lines) {
 		return 0
 	}
-	return UTF16Len(m.lines[line])
+	lineText := m.lines[line]
+	if line < len(m.lines)-1 {
+		// the CR of a CRLF line ending belongs to the terminator, not to the line
+		lineText = strings.TrimSuffix(lineText, "\r")
+	}
+	return UTF16Len(lineText)
 }
 
 func (m *PositionMapper) LineRuneLen(line int) int {
